@@ -555,9 +555,18 @@ class PrecipitateModel (PrecipitateBase):
         #If no precipitates are stable, don't calculate growth rate and set PSD to 0
         #This should represent dissolution of the precipitates
         if self.RdrivingForceIndex[p]+1 < len(self.PSDXalpha[p][:,0]):
-            superSaturation = (xComp[0] - self.PSDXalpha[p][:,0]) / (self.matrixParameters.volume.Vm * self.PSDXbeta[p][:,0] / self.precipitateParameters[p].volume.Vm - self.PSDXalpha[p][:,0])
+            #The supersaturation is not defined where the interfacial compositions of precipitate and matrix are equal
+            #    (e.g. tables zeroed in _updateParticleSizeDistribution), these size classes have no growth rate
+            xAlpha, xBeta = self.PSDXalpha[p][:,0], self.PSDXbeta[p][:,0]
+            xDiff = self.matrixParameters.volume.Vm * xBeta / self.precipitateParameters[p].volume.Vm - xAlpha
+            defined = xDiff != 0
+            superSaturation = np.zeros(self.PBM[p].bins + 1)
+            superSaturation[defined] = (xComp[0] - xAlpha[defined]) / xDiff[defined]
             D = self.therm.getInterdiffusivity(xComp[0], T, removeCache=self.removeCache)
-            growthRate = self.precipitateParameters[p].shapeFactor.kineticFactor(self.PBM[p].PSDbounds) * D * superSaturation / (self.matrixParameters.effectiveDiffusion(superSaturation) * self.PBM[p].PSDbounds)
+            #The effective diffusion distance goes to 0 as the supersaturation goes to 1
+            #Keep it at the last tabulated value so that the growth rate stays finite for supersaturations of 1 or more
+            effDiffDist = np.maximum(self.matrixParameters.effectiveDiffusion(superSaturation), self.matrixParameters.effectiveDiffusion.effDiffInterp[-2])
+            growthRate = self.precipitateParameters[p].shapeFactor.kineticFactor(self.PBM[p].PSDbounds) * D * superSaturation / (effDiffDist * self.PBM[p].PSDbounds)
 
         return growthRate
     
